@@ -1,5 +1,6 @@
 """C12 - switch_ output follows only the selected branch, which starts fresh."""
 import copy
+import json
 import random
 
 import coll
@@ -55,6 +56,58 @@ def switch_model(sc, spec, end):
     return out_stream, error_at, instances
 
 
+SET_BRANCHES = ("SumDelta", "NegSumDelta", "SumValue")
+
+
+def gen_set_writer(rng, wid, end):
+    """TSS<Int> writer whose every delta has an effect (added elements are new, removed ones present): partial ticks of a set
+    that already holds other elements"""
+    cur = set()
+    script = {}
+    t = rng.choice((0, 0, 1, 2))
+    for _ in range(rng.randint(3, 10)):
+        if t >= end:
+            break
+        added = set(rng.sample([x for x in range(1, 30) if x not in cur], rng.choice((1, 1, 2, 3))))
+        removed = set(rng.sample(sorted(cur), min(len(cur), rng.choice((0, 0, 1, 2))))) if cur else set()
+        cur = (cur - removed) | added
+        script[t] = [["d", coll.jd({"added": sorted(added), "removed": sorted(removed)})]]
+        t += rng.choice((1, 1, 1, 2, 3))
+    return dict(id=wid, shape="TSS", script=script)
+
+
+def set_switch_model(sc, spec, end):
+    """switch_ over a set-valued held input: a freshly selected branch sees the whole current set as its first delta"""
+    w = {x["id"]: x for x in sc["writers"]}
+    keys = dict(ho.ts_history(w[spec["key"]]))
+    deltas = {int(t): json.loads(ops[-1][1]) for t, ops in w[spec["s"]]["script"].items()}
+    cur = None
+    inst = None
+    cur_key = None
+    out = []
+    instances = 0
+    for t in range(end):
+        d = deltas.get(t)
+        if d is not None:
+            cur = ((cur or set()) - set(d["removed"])) | set(d["added"])
+        kt = keys.get(t)
+        first = False
+        if kt is not None and (kt != cur_key or spec.get("reload")):
+            cur_key = kt
+            inst = dict(f=spec["cases"][str(kt)], state=0)
+            instances += 1
+            first = True
+        if inst is None or cur is None or not (first or d is not None):
+            continue
+        if first:
+            inst["state"] = sum(cur)
+        else:
+            inst["state"] += sum(d["added"]) - sum(d["removed"])
+        f = inst["f"]
+        out.append((t, inst["state"] if f == "SumDelta" else -inst["state"] if f == "NegSumDelta" else sum(cur) + 100000))
+    return out, None, instances
+
+
 class C12:
     id = "C12"
     level = "exploration"
@@ -76,6 +129,14 @@ class C12:
         rng = random.Random(seed)
         end = rng.choice((10, 16, 24))
         nk = rng.randint(2, 3)
+        if random.Random(seed ^ 0x5E7).random() < 0.15:
+            # a set-valued held input and delta-driven branches: a flip in the cycle of a partial tick of the set
+            cases = {str(k): rng.choice(SET_BRANCHES) for k in range(1, nk + 1)}
+            kw = ho.gen_ts_writer(rng, 1, end, values=list(range(1, nk + 1)), dense=rng.random() < 0.5)
+            sw = gen_set_writer(rng, 2, end)
+            reload_ = 1 if rng.random() < 0.2 else 0
+            stmt = "switch 10 key=1 cases=%s%s s=2" % (",".join("%s:%s" % kv for kv in sorted(cases.items())), " reload=1" if reload_ else "")
+            return dict(sc=dict(window=(0, end), writers=[kw, sw], stmts=[stmt, "cons 11 10"]), spec=dict(key=1, s=2, cases=cases, default=None, reload=reload_))
         cases = {str(k): rng.choice(BRANCHES) for k in range(1, nk + 1)}
         default = rng.choice((None, None, "AddOne", "Accum"))
         # with a default branch: two different keys without a case of their own (both select the default, a change between
@@ -104,7 +165,7 @@ class C12:
         if len(sc["writers"]) < 2:
             return Outcome(stats={}, digest=res.digest, nontrivial=False, sample=sample)
         end = sc["window"][1]
-        exp, error_at, instances = switch_model(sc, case["spec"], end)
+        exp, error_at, instances = (set_switch_model if case["spec"].get("s") else switch_model)(sc, case["spec"], end)
         ran = [e for e in res.events if e["k"] == "ran"]
         stats = dict(key_changes=instances, output_ticks=0, probe_unmatched_key=0, probe_return_to_earlier_key=0, probe_flip_with_input_tick=0,
                      child_graph_instances=sum(1 for e in res.events if e["k"] == "gstart" and e["g"] > 0), simulated_time_us=end)
@@ -130,7 +191,7 @@ class C12:
             # the de-selected branch receives no further evaluations: every user-code evaluation inside the switch belongs to
             # the function selected at that time
             logs = {"AddOne": {"AddOne"}, "Accum": {"Accum"}, "Chain": {"Accum", "AddOne"}, "TickAfter": {"TickAfter"}, "AddKey": {"AddKey"},
-                    "ConstSource": {"ConstSource"}}
+                    "ConstSource": {"ConstSource"}, "SumDelta": {"SumDelta"}, "NegSumDelta": {"NegSumDelta"}, "SumValue": {"SumValue"}}
             khist = ho.ts_history([w for w in sc["writers"] if w["id"] == 1][0])
             sel = {}
             cur_key = None
